@@ -280,7 +280,7 @@ func (g *Gen) structAllocIsLocal(a *ssa.Alloc) bool {
 }
 
 func (g *Gen) cellName(a *ssa.Alloc) string {
-	return "C." + a.Name() + "." + a.Comment
+	return "C." + g.inlPrefix + a.Name() + "." + a.Comment
 }
 
 func (g *Gen) lvBase(lv LV, st State) string {
@@ -838,6 +838,9 @@ func (g *Gen) execBlock(b *ssa.BasicBlock, initial State) {
 	if b.Index == 0 {
 		st = initial
 		reach = "true"
+		if g.inl != nil {
+			reach = g.inlReach // the entry block of a helper executed in place
+		}
 	} else {
 		var fwd []predEdge
 		for _, e := range edges {
@@ -1013,7 +1016,8 @@ func (g *Gen) enterLoop(h *ssa.BasicBlock, li *loopInfo, st State, fwd []predEdg
 		}
 	}
 	for _, p := range phis {
-		g.havocVal(p)
+		// (a value at the loop head refers only to objects that exist there)
+		g.assumeTypeInv(g.havocVal(p), st)
 	}
 	// 3. assume the invariant for an arbitrary iteration
 	if g.headSt == nil {
